@@ -43,9 +43,17 @@ def atom(basis, values, i):
     return Scalar(values[i], u, c)
 
 
+def _first(h0):
+    """history[0] is an atom index i, or ("1/", i): the reciprocal 1.0 / atom (number on the left)"""
+    return (h0[1], True) if isinstance(h0, tuple) else (h0, False)
+
+
 def replay(history, basis, values):
-    """Rebuild the Scalar of a history [(first atom,), (op, atom), ...] on fresh objects."""
-    s = atom(basis, values, history[0])
+    """Rebuild the Scalar of a history [first, (op, atom), ...] on fresh objects."""
+    i0, rec = _first(history[0])
+    s = atom(basis, values, i0)
+    if rec:
+        s = 1.0 / s
     for op, i in history[1:]:
         a = atom(basis, values, i)
         s = s * a if op == "*" else s / a
@@ -58,7 +66,8 @@ def model_magnitude(model, history, basis, values):
     def m(i):
         return F(values[i]) * model.factor(basis[i][1])
 
-    mag = m(history[0])
+    i0, rec = _first(history[0])
+    mag = 1 / m(i0) if rec else m(i0)
     for op, i in history[1:]:
         mag = mag * m(i) if op == "*" else mag / m(i)
     return mag
@@ -71,13 +80,14 @@ def model_dimension(db, history, basis):
         qt = db.GetCategoryQuantityType(basis[i][0])
         dim[qt] = dim.get(qt, 0) + sign
 
-    add(history[0], 1)
+    i0, rec = _first(history[0])
+    add(i0, -1 if rec else 1)
     for op, i in history[1:]:
         add(i, 1 if op == "*" else -1)
     return {k: v for k, v in dim.items() if v}
 
 
-def explore(db, depth, basis=BASIS, values=PRIMES, on_transition=None):
+def explore(db, depth, basis=BASIS, values=PRIMES, on_transition=None, reciprocals=False):
     """
     BFS to `depth` factors.  Returns (states list in BFS order, transitions count).
     on_transition(parent_state, op, atom_index, result_scalar_or_exception, history) is called for
@@ -87,8 +97,10 @@ def explore(db, depth, basis=BASIS, values=PRIMES, on_transition=None):
     states = {}
     order = []
     frontier = []
-    for i in range(len(basis)):
-        h = (i,)
+    firsts = [(i,) for i in range(len(basis))]
+    if reciprocals:
+        firsts += [(("1/", i),) for i in range(len(basis))]
+    for h in firsts:
         s = replay(h, basis, values)
         st = _mk(db, model, h, s, basis, values)
         if st.key not in states:
@@ -134,7 +146,8 @@ def _mk(db, model, h, s, basis, values):
 
 
 def describe(history, basis=BASIS, values=PRIMES):
-    parts = ["Scalar(%r, %r, %r)" % (values[history[0]], basis[history[0]][1], basis[history[0]][0])]
+    i0, rec = _first(history[0])
+    parts = [("1.0 / " if rec else "") + "Scalar(%r, %r, %r)" % (values[i0], basis[i0][1], basis[i0][0])]
     for op, i in history[1:]:
         parts.append("%s Scalar(%r, %r, %r)" % (op, values[i], basis[i][1], basis[i][0]))
     return " ".join(parts)
@@ -142,7 +155,10 @@ def describe(history, basis=BASIS, values=PRIMES):
 
 def expr(history, basis=BASIS, values=PRIMES):
     """Python expression rebuilding the state (left-associative like replay)."""
-    e = "Scalar(%r, %r, %r)" % (values[history[0]], basis[history[0]][1], basis[history[0]][0])
+    i0, rec = _first(history[0])
+    e = "Scalar(%r, %r, %r)" % (values[i0], basis[i0][1], basis[i0][0])
+    if rec:
+        e = "(1.0 / %s)" % e
     for op, i in history[1:]:
         e = "(%s %s Scalar(%r, %r, %r))" % (e, op, values[i], basis[i][1], basis[i][0])
     return e
